@@ -205,7 +205,9 @@ class Check(Property):
         for s, eq in [("meter squared", "meter**2"), ("cubic meter", "meter**3"), ("square meter", "meter**2"),
                       ("sq meter", "meter**2"), ("meter cubed", "meter**3"), ("meter per second", "meter/second"),
                       ("meter²", "meter**2"), ("meter⁻¹", "meter**-1"), ("kilogram·meter", "kilogram*meter"),
-                      ("3 meter per second squared", "3*meter/second**2"), ("1,000 meter", "1000*meter")]:
+                      ("3 meter per second squared", "3*meter/second**2"), ("1,000 meter", "1000*meter"),
+                      ("1_000 meter", "1000*meter"), ("9_007_199_254_740_993 meter", "9007199254740993*meter"),
+                      ("7_000 // 2_000", "7000//2000"), ("2 ** 1_0", "2**10"), ("1_0.5 meter", "10.5*meter")]:
             self.bump("word forms")
             out.append(self.with_ops({"kind": "word", "s": s, "eq": eq}))
         # word forms next to parentheses, numbers ending in a point, chains
@@ -312,12 +314,16 @@ class Check(Property):
         if c["kind"] == "malformed":
             return self.oracle_malformed(u, c)
         if c["kind"] == "word":
-            try:
-                a, b = u.parse_expression(s), u.parse_expression(c["eq"])
-                if not (a == b and a.units == b.units):
-                    v.append(f"C07 {s!r} parses to {a!r}, expected {b!r}")
-            except Exception as exc:  # noqa: BLE001
-                v.append(f"C07 {s!r}: raised {type(exc).__name__}: {exc}")
+            for u in (u, regs.ureg("float")):
+                try:
+                    a, b = u.parse_expression(s), u.parse_expression(c["eq"])
+                    if not (a == b and getattr(a, "units", None) == getattr(b, "units", None)):
+                        v.append(f"C07 {s!r} parses to {a!r}, expected {b!r}")
+                    elif type(getattr(a, "magnitude", a)) is not type(getattr(b, "magnitude", b)):
+                        v.append(f"C07 {s!r} parses to {a!r} with a magnitude of type {type(getattr(a, 'magnitude', a)).__name__}, "
+                                 f"{c['eq']!r} gives {type(getattr(b, 'magnitude', b)).__name__} (numeric literals keep their type)")
+                except Exception as exc:  # noqa: BLE001
+                    v.append(f"C07 {s!r}: raised {type(exc).__name__}: {exc}")
             return v
         # structure: pint's tree must be the Python reading of the rendering
         from pint.pint_eval import build_eval_tree
